@@ -3,7 +3,7 @@
     environment handed to C12's model never takes [ctx.Done()]; timing plays no role in what
     Retry returns.  Error ids are interned texts of errors.New sentinels: [errof = EBase] and
     the text of [EBase i] is [i]. *)
-From WM Require Import Base.Prelude Message.Model Handler.RouterHandle Handler.Poison Handler.PoisonRetry Corr.C13.
+From WM Require Import Base.Prelude Message.Model Handler.RouterHandle Handler.Poison Handler.PoisonRetry Handler.PoisonRetryObs Corr.C13.
 From WM Require Handler.Retry.
 From Coq Require Import QArith.
 
@@ -41,10 +41,7 @@ Definition c13r_mismatch (c : c13r_case) : bool :=
     succeeded (its outputs are the result) or it failed (Retry hands on its error; which outputs
     it hands on is Retry's business, taken from the observed chain result) *)
 Definition rq_obs_h (c : c13r_case) : hscript N :=
-  let o := rq_script_fn c (pred (rq_calls c)) in
-  HS PreNone []
-     (if Retry.is_ok o then HRet (fst o)
-      else HFail (EBase (snd o)) (match rq_res c with MRet outs _ => outs | MPanic => [] end)).
+  obs_h EBase (rq_script_fn c) (rq_calls c) [] (rq_res c).   (* PoisonRetryObs.obs_h: C13_retry_acceptor_model_accepted *)
 
 Definition c13r_violates (c : c13r_case) : bool :=
   (* every invocation before the last one failed (else Retry went on after a success) *)
